@@ -513,6 +513,8 @@ def c03(ctx: Ctx) -> None:
         consume = [n for n in r.gathers if any(isinstance(a, ast.Starred) and _isL(n, a.value) for a in n.ast.value.args)]
         drops = [n for n in G.nodes if n.kind == 'call' and isinstance(n.ast.func, ast.Attribute) and n.ast.func.attr == 'clear'
                  and _isL(n, n.ast.func.value)]
+        # re-binding the list (the next round's fresh list) drops whatever the old one still held
+        drops += [n for n in G.nodes if n.kind == 'store_name' and n.meta['name'] == L and not n.meta.get('inlined_param')]
 
         def empty_false(e: Edge) -> bool:
             return e.src.kind == 'branch' and isinstance(e.src.meta['test'], ast.Name) and _isL(e.src, e.src.meta['test']) and e.label == 'false'
@@ -747,6 +749,7 @@ def c07(ctx: Ctx) -> None:
     ctx.rule('C07-W8', 'hand-off and join both travel the owning loop\'s ready queue', 2)
     ctx.rule('C07-W9', 'the daemon is cancellation-transparent: a handler that may catch CancelledError at a suspension point re-raises', 3)
     ctx.rule('C07-W10', 'DaemonTask subclasses asyncio.Task and overrides nothing that handles cancellation', 1)
+    ctx.rule('C07-W12', 'the drain generator (task_done after the yield) is consumed to its end by every user', 1)
     ctx.rule('C07-W11', 'the completion flag starts out set: wait() on an idle buffer returns', 1)
     gi_ = r.ginit
     sets_i = [n for n in gi_.nodes if is_meth(gi_, n, r.FLAG, 'set')]
@@ -840,6 +843,39 @@ def c07(ctx: Ctx) -> None:
             if is_meth(gg, n, r.Q, 'task_done'):
                 ctx.violation('C07-W3', f'{norm(n.ast)} in {f.name}', gg.loc(n), 'task_done outside the dequeuing code',
                               construct=construct_key(f.qualname, n.ast))
+    # W12: a drain generator that marks an item done only when it is resumed after yielding it must be run to its end
+    if r.drain is not None:
+        gd_ = build(r.drain, p)
+        ys_ = [n for n in gd_.nodes if n.kind == 'yield']
+        dn_ = [n for n in gd_.nodes if is_meth(gd_, n, r.Q, 'task_done')]
+        late_done = any(find_path(gd_, [y], [d_], edge_ok=_nonexc) is not None for y in ys_ for d_ in dn_)
+        if late_done:
+            PARTIAL = {'itertools.islice', 'itertools.takewhile', 'builtins.zip', 'builtins.next', 'itertools.zip_longest', 'itertools.dropwhile'}
+            dpos = {(getattr(d_.ast, 'lineno', None), getattr(d_.ast, 'col_offset', None)) for d_ in r.drain_calls}
+
+            def from_drain(n_: Node, e_: ast.AST) -> bool:
+                rv_ = resolve(G, n_, e_)
+                return any(isinstance(y, ast.Call) and (getattr(y, 'lineno', None), getattr(y, 'col_offset', None)) in dpos for y in ast.walk(rv_)) \
+                    or any(isinstance(y, ast.Call) and (getattr(y, 'lineno', None), getattr(y, 'col_offset', None)) in dpos for y in ast.walk(e_))
+            bad_ = []
+            for n_ in G.nodes:
+                if n_.kind == 'call' and (G.res.path(n_.ast.func) or '') in PARTIAL and any(from_drain(n_, a_) for a_ in n_.ast.args):
+                    bad_.append((n_, norm(n_.ast)[:70]))
+                elif n_.kind == 'for_iter' and from_drain(n_, n_.ast.iter) and any(
+                        isinstance(y, (ast.Break, ast.Return)) for b_ in n_.ast.body for y in ast.walk(b_)):
+                    bad_.append((n_, 'a for-loop with break / return'))
+            for n_, what_ in bad_:
+                ctx.violation('C07-W12', f'the drain generator is consumed by {what_}', G.loc(n_),
+                              'the drain generator marks an item done only when resumed after yielding it; a consumer that stops early '
+                              '(islice / zip / takewhile / break) leaves the last item unmarked: join() - and with it every later wait() - never returns',
+                              construct=construct_key('BUFFER.daemon', 'drain partially consumed'))
+            if not bad_:
+                ctx.holds('C07-W12', f'{len(r.drain_calls)} use(s) of the drain generator, none through a consumer that can stop early',
+                          G.loc(r.drain_calls[0]) if r.drain_calls else f'{FILE}:{r.drain.lineno}')
+        else:
+            ctx.holds('C07-W12', f'{r.drain.qualname}: items are marked done before they are yielded (or not in the generator)', f'{FILE}:{r.drain.lineno}')
+    else:
+        ctx.holds('C07-W12', 'no drain generator', f'{FILE}:{r.root.lineno}')
     # W4
     cancels = [n for n in gw.nodes if n.kind == 'call' and isinstance(n.ast.func, ast.Attribute) and n.ast.func.attr == 'cancel']
     cancelp = 'cancel'
